@@ -194,6 +194,7 @@ func (E *Engine) doSend(st *State, x *ssa.Send) []*State {
 	v := E.val(st, x.X)
 	// a send on a nil channel blocks forever: the continuation is unreachable
 	st.assume(not(eq(ch.S, "0")))
+	E.escapeVal(st, v)
 	E.sendCheck(st, x, ch, v)
 	E.logChan(st, "chanSend", []*Val{ch, v}, nil)
 	return nil
